@@ -9,10 +9,13 @@
 //! (c) threshold families: rule sets whose compiled sub-table size sweeps the 64 KiB limit one
 //!     record at a time, for 1, 2 and 3 required splits, alone and next to filler lookups that
 //!     force extension promotion.
+//! (d) the remaining GSUB / GPOS builders (see `others.rs`), judged on coverage queries and a
+//!     rule-for-rule round trip.
 //! (b) and (c) are compiled inside a `Gpos` with `dump_table`, re-read with read-fonts and evaluated
 //! by the reference first-match walker in `model.rs` for every glyph pair of (covered ∪ neighbours)².
 
 mod model;
+mod others;
 mod pairs;
 
 use rayon::prelude::*;
@@ -456,6 +459,7 @@ fn body(run: &Run, replay: Option<&Value>) {
                 classdef_case(run, &a, case["mode"].as_u64().unwrap_or(0) as u8, &mut l)
             }
             "classdef_builder" => classdef_builder_case(run, case["code"].as_u64().unwrap_or(0) as u32, case["order"].as_u64().unwrap_or(0) as u8, case["class0"].as_bool().unwrap_or(false), &mut l),
+            f if others::FAMILIES.contains(&f) => others::replay(run, case),
             _ => pairs::replay(run, case),
         }
         return;
@@ -469,6 +473,9 @@ fn body(run: &Run, replay: Option<&Value>) {
     }
     if only.is_empty() || only == "c" {
         pairs::part_c(run);
+    }
+    if only.is_empty() || only == "d" {
+        others::part_d(run);
     }
     if !only.is_empty() {
         run.cap_hit("C16_ONLY set: only one part was run");
